@@ -83,7 +83,9 @@ impl RHCT {
 
     fn update_header(&mut self, sum: u8, len: u32) {
         let old_len = self.header.table_header.length.get();
-        let new_len = len + old_len;
+        let new_len = old_len
+            .checked_add(len)
+            .expect("table length overflows the 32-bit Length field");
         self.header.table_header.length.set(new_len);
 
         // Update the current node count
